@@ -102,11 +102,16 @@ var c10Templates = []string{
 func c10Program(w interface{ RNG(int, string) *fw.RNG }, idx int) (src, label string, feats map[string]bool) {
 	if idx%3 != 0 {
 		k := (idx / 3 * 2) + idx%3 - 1
-		t := c10Templates[k%len(c10Templates)]
+		all := len(c10Templates) + len(c10CapTemplates)
+		if k%all >= len(c10Templates) {
+			// the allocation cap is lowered for the whole runtime, so no prelude here
+			return c10CapTemplates[k%all-len(c10Templates)] + "\n", fmt.Sprintf("cap-template-%d", k%all-len(c10Templates)), nil
+		}
+		t := c10Templates[k%all]
 		r := w.RNG(idx, "tmpl")
 		// vary the data the template prints
 		extra := fmt.Sprintf("(assoc! big %q %d)\n(assoc! big '%s %d)\n", fw.Pick(r, []string{"n1", "zz", "A", "m"}), r.Intn(100), fw.Pick(r, []string{"sym1", "q", "beta"}), r.Intn(100))
-		return c10Prelude + extra + t + "\n", fmt.Sprintf("template-%d", k%len(c10Templates)), nil
+		return c10Prelude + extra + t + "\n", fmt.Sprintf("template-%d", k%all), nil
 	}
 	r := w.RNG(idx, "gen")
 	p := gen.DefaultProfile()
@@ -115,8 +120,22 @@ func c10Program(w interface{ RNG(int, string) *fw.RNG }, idx int) (src, label st
 	return sx.Render(g.Program(), nil), "generated", g.Feat
 }
 
+// c10Arr renders a JSON array of n ones (escaped for use inside a lisp string).
+func c10Arr(n int) string { return "[" + strings.Repeat("1,", n-1) + "1]" }
+
+// templates that run under a host-lowered allocation cap (directive on the first line)
+var c10CapTemplates = []string{
+	";;c10:maxalloc=64\n(json:load-string \"{\\\"a\\\":" + c10Arr(70) + ",\\\"b\\\":" + c10Arr(80) + ",\\\"c\\\":" + c10Arr(90) + ",\\\"d\\\":" + c10Arr(100) + ",\\\"e\\\":" + c10Arr(110) + ",\\\"f\\\":" + c10Arr(120) + "}\")",
+	";;c10:maxalloc=64\n(json:load-bytes (to-bytes \"[{\\\"p\\\":" + c10Arr(66) + ",\\\"q\\\":" + c10Arr(67) + ",\\\"r\\\":" + c10Arr(68) + ",\\\"s\\\":" + c10Arr(69) + ",\\\"t\\\":" + c10Arr(71) + "}]\") :string-numbers true)",
+	";;c10:maxalloc=64\n(list (ignore-errors (make-sequence 0 100)) (handler-bind ((condition (lambda (c &rest a) a))) (concat 'vector (make-sequence 0 40) (make-sequence 0 40))))",
+}
+
 func c10Transcript(src string) string {
-	r := rt.New(rt.Opts{MaxSteps: 600_000})
+	o := rt.Opts{MaxSteps: 600_000}
+	if strings.HasPrefix(src, ";;c10:maxalloc=") {
+		fmt.Sscanf(src, ";;c10:maxalloc=%d", &o.MaxAlloc)
+	}
+	r := rt.New(o)
 	t, v := r.RunV("c10", src)
 	var sb strings.Builder
 	fmt.Fprintf(&sb, "value=%s\nerr=%v cond=%s\nmsg=%s\nstderr=%s\nsteps=%d\ntrace=%s\n", t.Value, t.IsErr, t.Cond, t.Msg, t.Stderr, t.Steps, t.TraceString())
